@@ -163,7 +163,7 @@ def compile_dropping_rejected(wd, tag, tutext, roots):
     the properties speak of 'every combination the library accepts'.  Returns (bc, fnmap, seconds, kept roots, dropped roots)."""
     lines = tutext.splitlines(True)
     dropped = []
-    for attempt in range(6):
+    for attempt in range(24):
         try:
             bc, fnmap, tsec = pipeline.compile_tu(wd, tag, "".join(lines))
             return bc, fnmap, tsec, [r for r in roots if r not in dropped], dropped
